@@ -251,7 +251,7 @@ theorem num_ge {d : Bytes} (hd : Num d) (hh : d.head? ≠ some 48) : 10 ^ (d.len
     omega
 
 theorem num_unique {a b : Bytes} (ha : Num a) (hb : Num b) (hv : decValue a = decValue b) : a = b := by
-  have pos : ∀ n : Nat, 1 ≤ 10 ^ n := fun n => Nat.one_le_two_pow.trans (Nat.pow_le_pow_left (by omega) n)
+  have pos : ∀ n : Nat, 1 ≤ 10 ^ n := fun n => Nat.pow_pos (by omega)
   have key : ∀ x y : Bytes, Num x → Num y → x.head? ≠ some 48 → y.head? ≠ some 48 → decValue x = decValue y →
       ¬ x.length < y.length := by
     intro x y hx hy h1 h2 e hlt
